@@ -92,7 +92,8 @@ class C16Check:
 
     def floors(self, tier):
         return scaled_floors("C16", ["C16.member_help_ok", "C16.handshake_ok", "C16.private_rejected", "C16.command_set_exact", "C16.socket_clients_ok",
-                                     "C19.handshake_while_other_pending", "C16.member_runs_ok", "C16.member_runs_ok.static", "C16.served_again"], tier, 25)
+                                     "C19.handshake_while_other_pending", "C16.member_runs_ok", "C16.member_runs_ok.static", "C16.served_again", "C16.client_parked_meanwhile", "C16.socket_probe_ok",
+                                     "C16.tiny_widths_identical"], tier, 25)
 
     def timeout(self, tier):
         return 900 if tier == "quick" else 7200
@@ -152,7 +153,7 @@ class C18Check:
 
     def floors(self, tier):
         return scaled_floors("C18", ["C18.lines.invalid", "C18.lines.junk", "C18.lines.mutant", "C18.lines.help", "C18.lines.valid",
-                                     "C18.probe_ok", "C18.isolation_ok", "C18.short_after_long", "C18.waiting_released", "C18.socket_probe_ok", "C18.socket_client_left", "C18.socket_reply_after_stop"], tier, 50)
+                                     "C18.probe_ok", "C18.isolation_ok", "C18.short_after_long", "C18.waiting_released", "C18.socket_probe_ok", "C18.socket_client_left", "C18.socket_reply_after_stop", "C18.pipelined_spawn_cancel", "C18.pool_shrunk_below_running"], tier, 50)
 
     def timeout(self, tier):
         return 900 if tier == "quick" else 7200
@@ -268,7 +269,8 @@ class C19Check:
         return scaled_floors("C19", ["C19.handshakes", "C19.probe_ok", "C19.stopped", "C19.cli_ok", "C19.started.tcp", "C19.started.unix", "C19.disconnect.abort",
                                      "C19.disconnect.eof", "C19.disconnect.close", "C19.stop_with_clients.1", "C19.connect_after_stop_refused",
                                      "C19.probe_ok_while_parked", "C19.handshake_while_other_pending", "C19.stale_socket_file", "C19.blank_probe_clients",
-                                     "C19.restart.earlier_task_pending", "C19.restart.earlier_task_done", "C19.earlier_period_client_leaves_while_serving_again"], tier, 12)
+                                     "C19.restart.earlier_task_pending", "C19.restart.earlier_task_done", "C19.earlier_period_client_leaves_while_serving_again",
+                                     "C19.restart.at_once", "C19.stopped_at_once.unix", "C19.stopped_at_once.tcp", "C19.not_serving_right_after_stop"], tier, 12)
 
     def timeout(self, tier):
         return 900 if tier == "quick" else 7200
